@@ -224,9 +224,51 @@ fn case_elim(r: &mut Rng, id: usize, total_only: bool, out: &mut String) {
             return case_elim_on(r, id, "distilled", t, out);
         }
     }
+    // a random (possibly partial) tree that already went through an elimination -- so it may hold a node that is marked
+    // Infeasible and was kept as the last remaining child -- and then received a further layer: the second elimination
+    // starts from these cached states
+    if !total_only && r.chance(1, 5) {
+        let mut t = if r.chance(1, 2) { gen_elim_tree(r, false) } else { gen_last_child_tree(r) };
+        let before = t.clone();
+        if catch(AssertUnwindSafe(|| t.infeasible_elimination())).is_err() {
+            return case_elim_on(r, id, "random", before, out);
+        }
+        let m = t.terminals().map(|x| x.aff.outdim()).next().unwrap_or(1);
+        let snapshot = t.clone();
+        let layer = if r.chance(1, 2) { schema::partial_ReLU(m, r.below(m)) } else { schema::partial_hard_tanh(m, r.below(m), -1.0, 1.0) };
+        if catch(AssertUnwindSafe(|| t.compose::<false, false>(&layer))).is_err() {
+            t = snapshot;
+        }
+        return case_elim_on(r, id, "rehist", t, out);
+    }
     let pipeline = r.chance(2, 5);
     let t = if pipeline { gen_pipeline(r) } else { gen_elim_tree(r, total_only) };
     case_elim_on(r, id, if pipeline { "pipeline" } else { "random" }, t, out)
+}
+/// root: x_j <= c.  Under label 0 (x_j >= c) a decision with a single child whose path is empty (x_j <= c - d): the
+/// elimination marks that child Infeasible and keeps it, being the last remaining child.  Under label 1 an ordinary
+/// subtree, visited later in depth-first order.
+fn gen_last_child_tree(r: &mut Rng) -> AffTree<2> {
+    let n = 1 + r.below(2);
+    let m = 1 + r.below(2);
+    let j = r.below(n);
+    let c = (r.range(-4, 4) as f64) / 2.0;
+    let d = (1 + r.below(4)) as f64 / 2.0;
+    let mut row = Array2::<f64>::zeros((1, n));
+    row[[0, j]] = 1.0;
+    let mut t = AffTree::<2>::from_aff(AffFunc::from_mats(row.clone(), Array1::from(vec![c])));
+    let d1 = t.add_child_node(0, 0, AffFunc::from_mats(row.clone(), Array1::from(vec![c - d]))).unwrap();
+    let lab = 1;
+    t.add_child_node(d1, lab, gen_aff(r, m, n, 4)).unwrap();
+    // the other side: a terminal or a small decision
+    if r.chance(1, 2) {
+        t.add_child_node(0, 1, gen_aff(r, m, n, 4)).unwrap();
+    } else {
+        let d2 = t.add_child_node(0, 1, gen_dec(r, 1, n, 4)).unwrap();
+        t.add_child_node(d2, 0, gen_aff(r, m, n, 4)).unwrap();
+        t.add_child_node(d2, 1, gen_aff(r, m, n, 4)).unwrap();
+    }
+    t
 }
 fn case_elim_on(r: &mut Rng, id: usize, gen: &str, t: AffTree<2>, out: &mut String) {
     let before = sx_tree(&t);
